@@ -291,7 +291,9 @@ func TestC05(t *testing.T) {
 // checkRecovery is P6 at crash point k: acknowledged requests are recovered, and the
 // witness slot shows a transaction at least as late (in commit order) as every
 // acknowledged one.
-func (c *c05Trace) checkRecovery(k int, rec *hx.Rec) error { return c.checkRecoveryVariant(k, nil, rec) }
+func (c *c05Trace) checkRecovery(k int, rec *hx.Rec) error {
+	return c.checkRecoveryVariant(k, nil, rec)
+}
 
 // powerLossAtSyncs is P6 under the power-loss model at the protocol's own synchronisation points:
 // directly before every global sync() (the checkpoint window: PREPARING written, primary data
